@@ -2,6 +2,7 @@ package harness
 
 import (
 	"fmt"
+	"os"
 	"reflect"
 	"sort"
 	"strings"
@@ -60,6 +61,8 @@ type opRec struct {
 	seq     int
 	// electionFail: FAILED while the session may not have been the primary (concurrent families)
 	electionFail bool
+	// pos: position of the operation among the operations sent on its session by env.modify
+	pos int
 }
 
 type session struct {
@@ -78,6 +81,14 @@ type session struct {
 	pendingResp []*spb.ModifyResponse
 	announced   [][2]uint64
 	termChecked bool
+	// opOrder: ids of the operations sent through env.modify, in send order; opResp: operation responses seen.
+	// The server answers every operation with one ModifyResponse (possibly without results, when it is held),
+	// in order, so the k-th such response was triggered by the k-th operation and can only carry results of
+	// operations received before it. Used only to tell apart two operations that share an id (env.shadow);
+	// given up (alignLost) as soon as a response does not fit.
+	opOrder   []uint64
+	opResp    int
+	alignLost bool
 }
 
 // env is the state of one simulated run.
@@ -98,16 +109,19 @@ type env struct {
 	// client numbers its operations from 1). Their session lost the primary role, so they need not be
 	// answered and the implementation may keep or drop them; if one resolves, its result arrives on the
 	// current primary's stream under an id that stream also uses (known finding KF-C06-1).
-	shadow        map[uint64]*opRec
-	perNIFlush    bool
-	maxElec       [2]uint64
-	modelStates   map[uint64]bool
-	hookFold      map[string]Snapshot // C16: fold of post-change notifications per NI
-	hookErr       []string
-	resolvedCalls int
-	noKnownSoft   bool
-	collecting    int
-	pendingAbort  bool
+	shadow  map[uint64]*opRec
+	curTrig int // position (session.opOrder) of the operation that triggered the response being processed, or -1
+	// invalidScenario: the scenario asks the harness' own client for something no client may do (see modify)
+	invalidScenario bool
+	perNIFlush      bool
+	maxElec         [2]uint64
+	modelStates     map[uint64]bool
+	hookFold        map[string]Snapshot // C16: fold of post-change notifications per NI
+	hookErr         []string
+	resolvedCalls   int
+	noKnownSoft     bool
+	collecting      int
+	pendingAbort    bool
 	// propOverride: attribute every violation to this property (families whose
 	// property subsumes the others', e.g. C11 "... the installed entries are exactly those acknowledged").
 	propOverride string
@@ -308,6 +322,25 @@ func (e *env) processResults(s *session, rs []*spb.ModifyResponse) {
 		// they happened in (a held operation may have failed on retry before a later one
 		// was installed): a FAILED verdict is judged against every model state the
 		// response passes through, the others strictly in order.
+		e.curTrig = -1
+		if len(s.opOrder) > 0 && !s.alignLost {
+			if s.opResp < len(s.opOrder) {
+				fits := len(r.GetResult()) == 0
+				for _, res := range r.GetResult() {
+					if res.GetId() == s.opOrder[s.opResp] {
+						fits = true
+					}
+				}
+				if fits {
+					e.curTrig = s.opResp
+				} else {
+					s.alignLost = true
+				}
+			} else {
+				s.alignLost = true
+			}
+			s.opResp++
+		}
 		e.failStates = []*Model{e.model.Clone()}
 		var fails []*spb.AFTResult
 		for _, res := range r.GetResult() {
@@ -329,6 +362,9 @@ func (e *env) processResults(s *session, rs []*spb.ModifyResponse) {
 
 func (e *env) oneResult(s *session, res *spb.AFTResult) {
 	rec := s.sent[res.GetId()]
+	if os.Getenv("VERIF_DEBUG") != "" {
+		fmt.Fprintf(os.Stderr, "DBG step %d sess %d result id %d %s own=%v\n", e.step, s.idx, res.GetId(), res.GetStatus(), rec != nil)
+	}
 	if sh := e.shadow[res.GetId()]; rec != nil && sh != nil && e.resultIsForShadow(rec, sh, res) {
 		e.probe("held operation of an earlier session answered under an id the current session uses too")
 		e.report("C06", "foreign-result", fmt.Sprintf("result for held operation of another session (reused id, %s)", res.GetStatus()),
@@ -339,10 +375,41 @@ func (e *env) oneResult(s *session, res *spb.AFTResult) {
 	}
 	if rec == nil {
 		other := e.allOps[res.GetId()]
-		if sh := e.shadow[res.GetId()]; sh != nil && (sh.state == opHeld || sh.state == opSent || (sh.state == opProgrammed && res.GetStatus() == spb.AFTResult_FIB_PROGRAMMED)) {
-			other = sh // the id was used again by an intermediate session; the held operation is the earlier one
+		if sh := e.shadow[res.GetId()]; sh != nil {
+			// the id was used again by an intermediate session: which of the two earlier operations is meant?
+			live := func(r *opRec) bool { return r != nil && (r.state == opHeld || r.state == opSent) }
+			fibOwed := func(r *opRec) bool {
+				return r != nil && r.state == opProgrammed && r.fib == 0 && e.sess[r.sess].fibAck
+			}
+			switch res.GetStatus() {
+			case spb.AFTResult_FIB_PROGRAMMED:
+				if !fibOwed(other) && fibOwed(sh) {
+					other = sh
+				}
+			default:
+				if !live(other) && live(sh) {
+					other = sh
+				} else if live(other) && live(sh) {
+					// both still unanswered: the one the model can account for
+					vo, _, _ := e.model.Expect(other.op)
+					vs, _, _ := e.model.Expect(sh.op)
+					okFor := func(v Verdict) bool {
+						if res.GetStatus() == spb.AFTResult_FAILED {
+							return v == VFail || v == VEither
+						}
+						return v == VProgram || v == VEither
+					}
+					if !okFor(vo) && okFor(vs) {
+						other = sh
+					}
+				}
+			}
 		}
 		if other != nil {
+			if os.Getenv("VERIF_DEBUG") != "" {
+				_, inSh := e.shadow[res.GetId()]
+				fmt.Fprintf(os.Stderr, "DBG   foreign id %d -> rec of sess %d state %d rib %d fib %d (shadow entry %v) %s\n", res.GetId(), other.sess, other.state, other.rib, other.fib, inSh, describeOp(other.op))
+			}
 			what := "unanswered operation"
 			if other.state == opHeld || other.wasHeld {
 				what = "held operation"
@@ -366,6 +433,13 @@ func (e *env) oneResult(s *session, res *spb.AFTResult) {
 // is held is told apart by content.
 func (e *env) implHeldIDs() []uint64 {
 	var out []uint64
+	if os.Getenv("VERIF_DEBUG") != "" {
+		var ids []uint64
+		for _, p := range e.srv.VerifRIB().VerifPending() {
+			ids = append(ids, p.ID)
+		}
+		fmt.Fprintf(os.Stderr, "DBG step %d impl pending %v\n", e.step, ids)
+	}
 	seen := map[uint64]bool{}
 	for _, p := range e.srv.VerifRIB().VerifPending() {
 		cur := e.allOps[p.ID]
@@ -388,6 +462,11 @@ func (e *env) implHeldIDs() []uint64 {
 func (e *env) resultIsForShadow(own, sh *opRec, res *spb.AFTResult) bool {
 	ownTerminal := own.state == opProgrammed || own.state == opFailed
 	shLive := sh.state == opHeld || sh.state == opSent
+	if e.curTrig >= 0 && own.pos > e.curTrig {
+		// the response was triggered by an operation sent BEFORE the stream's own operation with this id:
+		// the server has not even looked at that one yet
+		return shLive || (sh.state == opProgrammed && res.GetStatus() == spb.AFTResult_FIB_PROGRAMMED && sh.fib == 0)
+	}
 	switch res.GetStatus() {
 	case spb.AFTResult_FIB_PROGRAMMED:
 		if own.state == opProgrammed && own.fib == 0 {
@@ -404,7 +483,21 @@ func (e *env) resultIsForShadow(own, sh *opRec, res *spb.AFTResult) bool {
 		v, _, _ := e.model.Expect(sh.op)
 		return shLive && v == VProgram
 	case spb.AFTResult_FAILED:
-		return ownTerminal && shLive
+		if ownTerminal {
+			return shLive
+		}
+		if v, _, _ := e.model.Expect(own.op); v == VFail || v == VEither {
+			return false
+		}
+		// the stream's own operation must not fail; the earlier one may (e.g. a held REPLACE whose target is gone)
+		v, _, _ := e.model.Expect(sh.op)
+		for _, st := range e.failStates {
+			if v2, _, _ := st.Expect(sh.op); v2 == VFail || v2 == VEither {
+				v = v2
+				break
+			}
+		}
+		return shLive && (v == VFail || v == VEither)
 	}
 	return false
 }
